@@ -211,14 +211,21 @@ def h04b(c, K=2, focus="C04", variants=("default", "full-match", "bpe-off", "no-
                 evs = ["open", "traded", "suspended-new-version", "sp-reconciled", "runner-removed"] if k > 0 else ["open", "sp-reconciled"]
                 if state.get("sp") is not None:
                     evs.remove("sp-reconciled")  # reconciled once; every later book carries the starting price and is in-play
+                if variant == "available-prices" and k > 0:
+                    evs.append("back-side-moves-through-2.0")  # two levels at / through the price of the resting BACK orders
                 ev = c.choose("book%d" % k, evs)
                 if ev == "traded":
                     tv = tv + c.cents("traded_delta%d" % k, 1, 200000)
                 if ev == "runner-removed":
                     state["removed"] = True
                 removed = state["removed"]
+                first = c.cents("atb%d" % k, 1, 100000)
+                atb_k = [{"price": 1.9, "size": first}]
+                if ev == "back-side-moves-through-2.0":
+                    atb_k = [{"price": 2.04, "size": first}, {"price": 2.02, "size": c.cents("atb%d_2" % k, 1, 100000)}]
+                    c.cover("crossing-book")
                 r1 = cm.runner(1, status="REMOVED" if removed else "ACTIVE", adjustment_factor=10.0 if removed else None,
-                               atb=[{"price": 1.9, "size": c.cents("atb%d" % k, 1, 100000)}], atl=[{"price": 2.1, "size": c.cents("atl%d" % k, 1, 100000)}],
+                               atb=atb_k, atl=[{"price": 2.1, "size": c.cents("atl%d" % k, 1, 100000)}],
                                tv=[{"price": 2.0, "size": tv}])
                 if ev == "sp-reconciled":
                     state["sp"] = c.pick("actual_sp%d" % k, [1.5, 2.0, 7.4])
